@@ -241,11 +241,14 @@ def main(prop: str, tier: str = "quick") -> int:
     backends = defaultdict(int)
     opaque = defaultdict(int)
     inlined = {}
+    bounded_failures = []
     for r in results:
         if r.get("bounded"):
             bounded_results.append(r)
             if r["status"] == "checker-error":
                 checker_errors.append(r)
+            elif (r.get("bounded_result") or {}).get("failing_input") is not None:
+                bounded_failures.append(r)
             continue
         if r["status"] == "checker-error":
             checker_errors.append(r)
@@ -310,6 +313,13 @@ def main(prop: str, tier: str = "quick") -> int:
             for rec in recs:
                 rec["note"] = (rec.get("note") or "") + f" [listed finding {fid} no longer reproduces: {detail}]"
                 violations.append(rec)
+    # findings that no obligation can carry (they live in a bounded run-time contract's domain): reported while they reproduce
+    for f in findings:
+        if f.get("status", "open") == "open" and f.get("property") == prop and f.get("obligation", "").startswith("bounded:") and f["id"] not in known_hit:
+            rc, outp = run_replay_script(os.path.join(HERE, f["replay"]))
+            if rc == 1:
+                lines.append(f"KNOWN-FINDING: property={prop} {f['what']}")
+                known_out.append({"id": f["id"], "obligation": f["obligation"], "what": f["what"], "instances": 0, "witness_reproduces": True})
     seen = set()
     n_viol = 0
     for rec in violations:
@@ -328,6 +338,16 @@ def main(prop: str, tier: str = "quick") -> int:
     for _, (f, recs) in known_hit.items():
         known_oids.update(r["oid"] for r in recs)
 
+    for r in bounded_failures:
+        br = r["bounded_result"]
+        rel = f"replays/{prop}-bounded-{hashlib.sha1(r['contract'].encode()).hexdigest()[:8]}.json"
+        with open(os.path.join(HERE, rel), "w") as fh:
+            json.dump({"property": prop, "obligation": "bounded:" + r["contract"], "failing_input": br["failing_input"], "observed": br.get("observed"),
+                       "replayed_on_real_code": True, "bound": br.get("bound")}, fh, indent=1, default=str)
+        lines.append(f"VIOLATION property={prop} replay={rel}")
+        print(f"  bounded run-time contract {r['contract']} found a failing input on the real code: {str(br.get('observed'))[:300]}")
+        exit_code = 1
+        n_viol += 1
     for r in unsupported:
         bs = r.get("bounded_standin") or {}
         if bs.get("failing_input") is not None:
